@@ -153,7 +153,7 @@ def _flat_numbers(v):
     return out
 
 
-def lean_search(chk, props_module, theorem, imports, opens, trials=300, binary=None, idx_deps=()):
+def lean_search(chk, props_module, theorem, imports, opens, trials=120, binary=None, idx_deps=()):
     """Evaluate the statement of `theorem` on random small rational inputs with the
     CURRENT Gen definitions; returns a replay dict with a failing input or None."""
     path = os.path.join(lib.LEAN, *props_module.split(".")) + ".lean"
@@ -161,7 +161,8 @@ def lean_search(chk, props_module, theorem, imports, opens, trials=300, binary=N
     if not pt:
         return None
     params, stmt = pt
-    rng = random.Random(chk.seed * 7919 + hash(theorem) % 1000)
+    import zlib
+    rng = random.Random(chk.seed * 7919 + zlib.crc32(theorem.encode()) % 100000)
     def val(ty):
         ty = ty.replace("α", "").strip()
         def num():
@@ -184,16 +185,14 @@ def lean_search(chk, props_module, theorem, imports, opens, trials=300, binary=N
     lines = ["import %s" % i for i in imports]
     lines += ["open %s" % o for o in opens]
     lines.append("def stmtHolds %s : Bool := decide (%s)" % (" ".join("(%s : %s)" % (n, t) for n, t in zip(names, tys)), stmt))
-    lines.append("def cases : List (Nat × Bool) := [")
-    lines.append(",\n".join("  (%d, stmtHolds %s)" % (i, " ".join("(%s)" % v for v in vs)) for i, vs in enumerate(cases)))
-    lines.append("]")
-    lines.append('#eval (cases.filter (fun c => !c.2)).map (·.1) |>.take 3')
-    rc, out = lib.lean_run_file("\n".join(lines) + "\n", timeout=600, name="search")
-    m = re.search(r"\[([\d,\s]*)\]", out)
-    if rc != 0 or not m:
+    for i, vs in enumerate(cases):
+        lines.append('#eval IO.println s!"CASE %d {stmtHolds %s}"' % (i, " ".join("(%s)" % v for v in vs)))
+    rc, out = lib.lean_run_file("\n".join(lines) + "\n", timeout=900, name="search")
+    res = dict((int(m.group(1)), m.group(2) == "true") for m in re.finditer(r"CASE (\d+) (true|false)", out))
+    if len(res) < len(cases) // 2:
         lib.log("lean_search(%s): could not evaluate statement: %s" % (theorem, out[-400:]))
         return None
-    idxs = [int(x) for x in m.group(1).replace(" ", "").split(",") if x]
+    idxs = sorted(i for i, ok in res.items() if not ok)
     if not idxs:
         return None
     vs = cases[idxs[0]]
@@ -207,6 +206,6 @@ def lean_search(chk, props_module, theorem, imports, opens, trials=300, binary=N
             cmd += ["--idx", d]
         rc2, out2 = lib.sh(cmd, timeout=120)
         real = out2.strip().split("\n")[-1] if out2.strip() else None
-    return {"real_code_at_double": real,"key": "%s:%s" % (theorem, "|".join(vs))[:150], "theorem_statement": " ".join(stmt.split()),
+    return {"real_code_at_double": real,"key": "theorem:" + theorem, "theorem_statement": " ".join(stmt.split()),
             "failing_input": dict(zip(names, vs)), "evaluated_at": "Rat, with the Gen definitions regenerated from the current tree",
             "falsified_cases": len(idxs)}
